@@ -34,8 +34,8 @@ ASSUMPTIONS = [
 
 UNKNOWN_LEAF = ["ZZUNKNOWN", "NOTATAG", "X1", "FOO_BAR", "MEMO2"]
 VENDOR_LEAF = ["INTU.BID", "X.ACCTID", "A.B.C", "INTU.USERID", "Q.1"]
-VENDOR_AGG = ["INTU.XYZ", "A.B", "VENDOR.AGG"]
-UNKNOWN_AGG = ["ZZAGG", "NOTANAGG", "XTRA"]
+VENDOR_AGG = ["INTU.XYZ", "A.B", "VENDOR.AGG", "INTU." + "X" * 27, "V." + "LONGVENDORAGGREGATENAME" * 2]
+UNKNOWN_AGG = ["ZZAGG", "NOTANAGG", "XTRA", "Z" * 31, "Z" * 32, "Z" * 33, "ZZ_A_RATHER_LONG_UNKNOWN_AGGREGATE_NAME_OF_50_CHARS"]
 OTHER_CLASS_TAGS = ["STATUS", "BAL", "CURRENCY", "SONRQ", "STMTTRN", "FI", "INVPOS", "SECID", "OFX", "OFX", "NAME", "MEMO", "BALAMT", "TRNUID", "DTPOSTED", "CHECKNUM"]
 OTHER_LEAF_TAGS = ["TRNUID", "CODE", "ACCTID", "DTSERVER", "SEVERITY", "OFX"]
 DEEP = 24  # nesting depth of the "deep" foreign aggregate (the deepest path of the OFX schema itself is about a dozen levels)
